@@ -352,7 +352,7 @@ def gen_bytes_field(rng, var: dict, cls: str, maxlen: int, big: bool):
         return b, True
     if cls != "binary" and c in (4, 5, 6):
         s = rng.choice(["", "a", "hello", "héllo 世界", "a\x00b", "\x00x", "tab\tnl\n"])
-        return s[:max(0, limit // 4)], True
+        return s[:max(0, limit // 4)].rstrip("\x00"), True      # domain rule: a str never ends in NUL
     raw = rng.choice([b"", b"\x00", b"abc", b"abc\x00", b"a\x00b", b"a\x00b\x00", b"\xff\xfe", b"\xff\x00", b"\xc3\x28\x00",
                       b"hi\x00\x00", b"\x00\x00", bytes(rng.randrange(256) for _ in range(rng.randrange(1, 12)))])[:limit]
     ok = True
@@ -418,21 +418,25 @@ def gen_header(rng, rich=True):
     return {"flags": flags, "pid": pid, "acks": acks, "extra": extra}
 
 
-def gen_message(I: Impl, rng, shape: dict, tmpl, counts=(0, 1, 1, 2, 3), maxlen=40, big=False, fill=False, hdr=None):
-    """Random conformant message of a real template: (hdr, blocks_py, typed blocks, python-eq claimed)."""
+def gen_message(I: Impl, rng, shape: dict, tmpl, counts=(0, 1, 1, 2, 3), maxlen=40, big=False, fill=False, hdr=None, force=None):
+    """Random conformant message of a real template: (hdr, blocks_py, typed blocks, python-eq claimed).
+    force = {(block index, variable index): bytes} fixes the value of that variable in every instance."""
     hdr = hdr or gen_header(rng)
     blocks_py, typed = [], []
     eq = True
-    for sb, tb in zip(shape["blocks"], tmpl.blocks):
+    for bi, (sb, tb) in enumerate(zip(shape["blocks"], tmpl.blocks)):
         n = 1 if sb["kind"] == "Single" else sb["n"] if sb["kind"] == "Multiple" else rng.choice(counts)
         insts_py, insts_t = [], []
         for _ in range(n):
             d, tl = {}, []
-            for v, tv in zip(sb["vars"], tb.variables):
+            for vi, (v, tv) in enumerate(zip(sb["vars"], tb.variables)):
                 if fill and rng.random() < 0.6:
                     tl.append({"k": "unset"})
                     continue
                 val, ok = gen_value(I, rng, v, var_class(I, tv) if v["t"] in ("Fixed", "Variable") else "", maxlen, big)
+                if force and (bi, vi) in force:
+                    val = force[(bi, vi)]
+                    ok = eq_claimed(var_class(I, tv), val)
                 eq = eq and ok
                 d[v["name"]] = val
                 tl.append(to_typed(v, val))
@@ -526,6 +530,9 @@ def validate_rt(chk: Check, label, events, details, per_trace=25, shards=12):
 # ------------------------------------------------------------------------------------------
 # part 1: miniature universe — model check + table replay
 # ------------------------------------------------------------------------------------------
+# zero runs around the places where zero-coding splits a run (255 per pair; 00 00 would be the wrap form)
+ZERO_RUNS = (254, 255, 256, 509, 510, 511, 765)
+RUN_LENS = "{%s}" % ", ".join(map(str, ZERO_RUNS))
 INVS = ["InDomain", "RoundTrip", "Length", "Framing", "Fill", "ZeroCoded", "Reassembled"]
 
 
@@ -533,8 +540,8 @@ def mini_universe(chk: Check, pa, maxvar, maxcount):
     I = impl()
     cfgs = []
     for tids in ("{1, 2, 4, 5}", "{3}", "{6}"):
-        cfgs.append("SPECIFICATION Spec\nCONSTANTS PA = %s MaxVar = %d MaxCount = %d Tids = %s\n%s" % (
-            pa, maxvar, maxcount, tids, "".join("INVARIANT %s\n" % i for i in INVS)))
+        cfgs.append("SPECIFICATION Spec\nCONSTANTS PA = %s MaxVar = %d MaxCount = %d Tids = %s RunLens = %s\n%s" % (
+            pa, maxvar, maxcount, tids, RUN_LENS, "".join("INVARIANT %s\n" % i for i in INVS)))
     import concurrent.futures as cf
 
     def one(i):
@@ -579,6 +586,9 @@ def mini_universe(chk: Check, pa, maxvar, maxcount):
                     elif tv["k"] == "raw" and v["t"] == "Variable":
                         bump("variable-payload-len:%d" % len(tv["b"]))
     chk.cov["mini_rows_by_class"] = dict(sorted(cls.items()))
+    for need in ["variable-payload-len:%d" % n for n in ZERO_RUNS] + ["part:runs"]:
+        if need not in cls:
+            raise MachineryError("vacuous model: no table row of class %s" % need)
     for need in ("part:hdr", "part:body", "part:fill", "zero-coded", "plain", "acks:0", "acks:2", "extra:0", "extra:2",
                  "variable-block-count:0", "variable-block-count:%d" % maxcount, "unset:Fixed", "unset:Variable", "unset:U8",
                  "text-value", "negative-int", "variable-payload-len:0", "variable-payload-len:%d" % maxvar):
@@ -662,6 +672,29 @@ def real_shapes(chk: Check):
     return out
 
 
+def zero_run_sites(pairs):
+    """Templates with a two-byte-length Variable field (the only fields that can hold a long zero run), as
+    (shape, template, (block index, var index), is the field the last thing in the body)."""
+    out = []
+    for s, t in pairs:
+        if sum(len(b["vars"]) for b in s["blocks"]) > 16 or any(b["kind"] == "Multiple" for b in s["blocks"]):
+            continue
+        for bi, b in enumerate(s["blocks"]):
+            for vi, v in enumerate(b["vars"]):
+                if v["t"] == "Variable" and v["size"] == 2:
+                    out.append((s, t, (bi, vi), bi == len(s["blocks"]) - 1 and vi == len(b["vars"]) - 1))
+    return out
+
+
+def zero_run_payload(n: int, pos: str) -> bytes:
+    """A zero run of n bytes at the start / in the middle / at the end of a payload."""
+    return {"start": bytes(n) + b"\x01", "middle": b"\x01" + bytes(n) + b"\x01", "end": b"\x01" + bytes(n)}[pos]
+
+
+def max_zero_runs(body: bytes) -> set:
+    return {len(m) for m in re.findall(rb"\x00+", body)}
+
+
 def inst_size(shape_block):
     return sum(v["size"] + 2 if v["t"] == "Variable" else v["size"] if v["t"] == "Fixed" else
                INT_TYPES[v["t"]][0] if v["t"] in INT_TYPES else {"F32": 4, "F64": 8, "LLVector3": 12, "LLVector3d": 24, "LLVector4": 16,
@@ -669,7 +702,7 @@ def inst_size(shape_block):
                for v in shape_block["vars"])
 
 
-def real_templates(chk: Check, per_template, n_fill, n_big):
+def real_templates(chk: Check, per_template, n_fill, n_big, zero_rounds=1):
     I = impl()
     rng = chk.rng
     ser, des, _ = I.codec(None, False)
@@ -704,6 +737,31 @@ def real_templates(chk: Check, per_template, n_fill, n_big):
     for shape, tmpl in with_var1[:n_big]:
         hdr, bp, ty, eq = gen_message(I, rng, shape, tmpl, counts=(1,), maxlen=300, big=True, hdr=gen_header(rng, rich=False))
         add(shape, tmpl, hdr, bp, ty, eq, False, "var-maxlen")
+    # zero runs around the 255 boundaries of zero-coding, zero-coded, at the start / in the middle / at the end of a
+    # payload (and of the body when the field is its last), plus the extra header bytes as a run right behind the number
+    sites = zero_run_sites(pairs)
+    last_sites = [x for x in sites if x[3]] or sites
+    seen_runs = set()
+    cases = [(n, pos) for n in ZERO_RUNS for pos in ("start", "middle", "end")] * zero_rounds
+    for k, (n, pos) in enumerate(cases):
+        shape, tmpl, site, _ = rng.choice(last_sites if pos == "end" else sites)
+        hdr = dict(gen_header(rng, rich=False), flags=rng.choice([0x80, 0x80, 0xC0, 0x90]))
+        if not hdr["flags"] & 0x10:
+            hdr["acks"] = []
+        hdr["extra"] = b"" if k % 3 else hdr["extra"][:4]
+        hdrx, bp, ty, eq = gen_message(I, rng, shape, tmpl, counts=(1,), maxlen=6, hdr=hdr, force={site: zero_run_payload(n, pos)})
+        add(shape, tmpl, hdrx, bp, ty, eq, False, "zero-run-%d-%s" % (n, pos))
+        st, plain = impl_call(lambda: bytes(ser.serialize(build_message(I, shape, dict(hdrx, flags=0, acks=[]), bp))))
+        if st == "ok":
+            seen_runs |= max_zero_runs(plain[6:])
+    for n in (254, 255):
+        shape, tmpl = rng.choice([p for p in pairs if p[0]["blocks"] and sum(len(b["vars"]) for b in p[0]["blocks"]) <= 8])
+        hdr = {"flags": 0x80, "pid": 7, "acks": [], "extra": bytes(n)}
+        hdrx, bp, ty, eq = gen_message(I, rng, shape, tmpl, counts=(1,), maxlen=6, hdr=hdr)
+        add(shape, tmpl, hdrx, bp, ty, eq, False, "zero-run-extra-%d" % n)
+    chk.cov["real_body_zero_runs_seen"] = sorted(x for x in seen_runs if x >= 250)
+    if not chk.violations and not {255, 510, 765} <= seen_runs:
+        raise MachineryError("vacuous run: no zero-coded real body with a maximal zero run of 255, 510 and 765 bytes")
     chk.sample({"binding": "B3 round trip of a real template, recomputed by TLC (code->spec)",
                 "template": details[7]["template"], "event": common._clip({k: v for k, v in events[7].items() if k != "T"}, 30)})
     validate_rt(chk, "real", events, details, per_trace=12)
@@ -728,5 +786,5 @@ def run(chk: Check):
         real_templates(chk, 2, 30, 6)
     else:
         mini_universe(chk, "{0, 65, 255}", 3, 2)
-        real_templates(chk, 40, 600, 60)
+        real_templates(chk, 40, 600, 60, zero_rounds=6)
     chk.cov["exhaustive"] = True
